@@ -26,6 +26,7 @@ def _(fh: "file", xorkey: "bytes"):
     """yields exactly one metadata item per marker offset (ascending) that has room for a beacon configuration in
     front of it, with the masked areas read from the stated offsets and the guard configuration unmasked;
     terminates and raises nothing for every file content"""
+    modifies(fh)
     requires(len(xorkey) == 1)
     yields("record[GuardrailMetadata]")
     terminates()
@@ -83,6 +84,7 @@ def _(fh: "file"):
     """soundness: one item per scanner item (marker offsets ascending); an unmasked beacon configuration is only ever
     reported together with a key under which payload_checksum(unmasked) + 1 equals the checksum stored in the guard
     configuration, and it is xor(xor(masked, 0x2e), key); otherwise the guard metadata alone is reported"""
+    modifies(fh)
     yields("record[GuardrailMetadata]")
     ghost(entry=True, do=[let("F", file_content(fh))])
     ensures(len(yielded) == len(guard_offsets(F, 138, len(F))))
